@@ -142,13 +142,35 @@ def prog1(i):
         lines.insert(len(lines) - len(body), '')
     return "\n".join(lines) + ("\n" if i % 2 == 0 else "")
 
+def mini2(j):
+    head, _ = H2[(j + 1) % len(H2)]
+    body = list(S2[j % len(S2)])
+    if j % 2:
+        body += S2[(j * 5 + 1) % len(S2)]
+    if j % 5 == 0:
+        body = ['if $x'] + ind(body, 2)
+    return "\n".join(head + ind(body, 2)) + ("\n" if j % 3 else "")
+
+
+def mini1(j):
+    lines = list(D1[(j * 3) % len(D1)]) if j % 3 == 0 else []
+    lines += F1[(j + 2) % len(F1)].split("\n")
+    body = list(S1[j % len(S1)])
+    if j % 2:
+        body += S1[(j * 5 + 1) % len(S1)]
+    if j % 5 == 0:
+        body = ['if $x'] + ind(body, 2)
+    return "\n".join(lines + ind(body, 2)) + ("\n" if j % 3 else "")
+
+
 out = "/verif/harness/c13_seeds"
-for ver, sub, gen in (("2.x", "v2", prog2), ("1.0", "v1", prog1)):
+for ver, sub, gen, pre, want in (("2.x", "v2", prog2, "p", 42), ("1.0", "v1", prog1, "p", 42),
+                                 ("2.x", "v2", mini2, "m", 24), ("1.0", "v1", mini1, "m", 24)):
     os.makedirs(os.path.join(out, sub), exist_ok=True)
     ok = 0
     i = 0
     seen = set()
-    while ok < 42 and i < 200:
+    while ok < want and i < 200:
         t = gen(i)
         i += 1
         if t in seen: continue
@@ -159,6 +181,6 @@ for ver, sub, gen in (("2.x", "v2", prog2), ("1.0", "v1", prog1)):
             print(t)
             continue
         ok += 1
-        with open(os.path.join(out, sub, "p%02d.co" % ok), "w") as f:
+        with open(os.path.join(out, sub, "%s%02d.co" % (pre, ok)), "w") as f:
             f.write(t)
     print(ver, "ok", ok, "tried", i)
